@@ -84,6 +84,30 @@ async def D1():
     return (not bad, bad)
 
 
+async def D1b():
+    """a COM_CHANGE_USER that fails with an exception (undecodable clear-text password) must end the connection"""
+    from mysql_mimic.auth import AbstractClearPasswordAuthPlugin
+    from lib import com_change_user
+
+    class Clear(AbstractClearPasswordAuthPlugin):
+        name = "clearpw"
+
+        async def check(self, username, password):
+            return username if password == "secret" else None
+
+    idp = IDP([NativePasswordAuthPlugin(), Clear()], {"u": User("u", None, "mysql_native_password"), "carl": User("carl", None, "clearpw")})
+    s = RecSession()
+    srv = mkserver([s], identity_provider=idp)
+    a = Peer(srv)
+    await a.login("u")
+    out = await a.cmd(com_change_user(b"carl", b"\xff\xfe\x00", b"otherdb", plugin=b"mysql_clear_password"))
+    out2 = await a.cmd(b"\x03select * from t")
+    calls = [l[0] for l in s.log]
+    ok = len(out) == 1 and out[0][1][:1] == b"\xff" and not out2 and "query" not in calls and a.t.closed and calls.count("close") == 1
+    await a.finish()
+    return ok, (out, out2, calls)
+
+
 # --------------------------------------------------------------------------- C04
 async def D4a():
     """packet header split across two reads"""
@@ -463,7 +487,7 @@ async def D18():
 
 
 ALL = {
-    "D1": ("C01", D1), "D4a": ("C04", D4a), "D4b": ("C04", D4b), "D5a": ("C05", D5a), "D5b": ("C05", D5b),
+    "D1": ("C01", D1), "D1b": ("C01", D1b), "D4a": ("C04", D4a), "D4b": ("C04", D4b), "D5a": ("C05", D5a), "D5b": ("C05", D5b),
     "D5c": ("C05", D5c), "D6": ("C06", D6), "D7": ("C07", D7), "D9a": ("C09", D9a), "D9b": ("C09", D9b),
     "D9c": ("C09", D9c), "D9d": ("C09", D9d), "D10a": ("C03", D10a), "D10b": ("C03", D10b),
     "D10c": ("C03", D10c), "D11": ("C11", D11), "D13": ("C13", D13), "D14": ("C14", D14), "D15": ("C15", D15),
